@@ -138,37 +138,30 @@ theorem post_tag {β} (t : String) {f : Unit → DecM β} {Q : β → Prop} (hf 
 
 /-! ### integer values: as many as entries × components -/
 
-theorem readRawValues_length (pre20 : Bool) (ne nc : Nat) :
-    Post (readRawValues pre20 ne nc) (fun raw => raw.length = ne * nc ∧ 0 < ne ∧ 0 < nc) := by
-  unfold readRawValues
-  apply post_bind_require; intro hnc
-  have hnc : 0 < nc := by simpa using hnc
-  extract_lets numValues
-  have hnv : numValues = ne * nc := rfl
-  apply post_bind_any; intro _
-  apply post_bind_require; intro hne
-  have hne : 0 < ne := by simpa using hne
+theorem readCodedValuesEb_length (pre20 : Bool) (ne nc : Nat) (hne : 0 < ne) (hnc : 0 < nc) :
+    Post (readCodedValuesEb pre20 (ne * nc) nc) (fun raw => raw.length = ne * nc) := by
+  unfold readCodedValuesEb
   apply post_bind_any; intro compressed
   apply post_ite <;> intro _
-  · exact post_mono (post_symbolsV _ ne nc) (fun _ h => ⟨h, hne, hnc⟩)
+  · exact post_symbolsV _ ne nc
   · apply post_bind_any; intro numBytes
     apply post_ite <;> intro hnb
-    · refine post_bind (post_bytes (4 * numValues)) (fun b hb => ?_)
+    · refine post_bind (post_bytes (4 * (ne * nc))) (fun b hb => ?_)
       apply post_pure
-      exact ⟨leGroups_length 4 (ne * nc) (by omega) b (by rw [hb, hnv]; omega), hne, hnc⟩
+      exact leGroups_length 4 (ne * nc) (by omega) b (by rw [hb]; omega)
     · apply post_bind_any; intro _
       apply post_bind_any; intro rem
       apply post_bind_any; intro _
       apply post_ite <;> intro hz
       · apply post_pure
-        exact ⟨by simp [hnv], hne, hnc⟩
-      · refine post_bind (post_bytes (numBytes * numValues)) (fun b hb => ?_)
+        simp
+      · refine post_bind (post_bytes (numBytes * (ne * nc))) (fun b hb => ?_)
         apply post_pure
         have : 0 < numBytes := by
           rcases Nat.eq_zero_or_pos numBytes with h | h
           · simp [h] at hz
           · exact h
-        exact ⟨leGroups_length numBytes (ne * nc) this b (by rw [hb, hnv]; exact Nat.mul_comm _ _), hne, hnc⟩
+        exact leGroups_length numBytes (ne * nc) this b (by rw [hb]; exact Nat.mul_comm _ _)
 
 theorem post_bind_liftR {α β} {r : R α} {f : α → DecM β} {Q : β → Prop}
     (hf : ∀ a, r = .ok a → Post (f a) Q) : Post (liftR r >>= f) Q :=
@@ -187,11 +180,10 @@ macro "post_walk" : tactic =>
       | (apply post_bind_any; intro _)
       | (apply post_ite <;> intro _)))
 
-theorem applyScheme_size (scheme : Scheme) (nc ne : Nat) (md : MeshData) (pos : PosSource) (posF : PosSourceF)
-    (vals : Array Int) (hnc : 0 < nc) (hv : vals.size = ne * nc) :
-    Post (applyScheme scheme nc md pos posF vals) (fun r => r.size = vals.size) := by
-  unfold applyScheme
-  apply post_bind_any; intro ver
+theorem applySchemeEb_size (ver : Nat) (scheme : Scheme) (nc ne : Nat) (md : MeshData) (pos : PosSource)
+    (posF : PosSourceF) (vals : Array Int) (hnc : 0 < nc) (hv : vals.size = ne * nc) :
+    Post (applySchemeEb ver scheme md pos posF nc vals) (fun r => r.size = vals.size) := by
+  unfold applySchemeEb
   cases scheme
   all_goals simp only []
   all_goals post_walk
@@ -215,34 +207,34 @@ theorem decodeIntegerValuesEb_size (kind ne nc ac : Nat) (md : MeshData) (pointI
   unfold decodeIntegerValuesEb
   apply post_bind_any; intro ver
   apply post_bind_any; intro sel
-  obtain ⟨scheme, pos, posF⟩ := sel
+  obtain ⟨scheme, unsupp⟩ := sel
   simp only []
+  apply post_ite <;> intro _
+  · exact post_failWith
+  apply post_bind_any; intro par
+  obtain ⟨pos, posF, unsupp2⟩ := par
+  simp only []
+  apply post_ite <;> intro _
+  · exact post_failWith
   have tail : ∀ tr : TransformData, Post (do
-      let raw ← readRawValues (decide (ver < bsVersion 2 0)) ne nc
-      let out ←
-        applyScheme scheme nc md pos posF
-            (if
-                (match scheme with
-                  | Scheme.deltaOcta legacyOcta => true
-                  | Scheme.geometricNormal legacyOcta => true
-                  | x => false) =
-                  true then
-              (List.map (toSigned 32) raw).toArray
-            else (List.map ofSymbol raw).toArray)
+      require (decide (nc > 0))
+      alloc "integer_decoder.portable_attribute" (4 * (ne * nc))
+      require (decide (ne > 0))
+      let raw ← readCodedValuesEb (decide (ver < bsVersion 2 0)) (ne * nc) nc
+      let out ← applySchemeEb ver scheme md pos posF nc
+        (if scheme.isOcta = true then (List.map (toSigned 32) raw).toArray else (List.map ofSymbol raw).toArray)
       pure (out, tr)) (fun r => r.1.size = ne * nc ∧ 0 < ne ∧ 0 < nc) := by
     intro tr
-    refine post_bind (readRawValues_length _ ne nc) (fun raw hraw => ?_)
-    obtain ⟨hlen, hne, hnc⟩ := hraw
-    have hsz : (if
-                (match scheme with
-                  | Scheme.deltaOcta legacyOcta => true
-                  | Scheme.geometricNormal legacyOcta => true
-                  | x => false) =
-                  true then
-              (List.map (toSigned 32) raw).toArray
-            else (List.map ofSymbol raw).toArray).size = ne * nc := by
+    apply post_bind_require; intro hnc
+    have hnc : 0 < nc := by simpa using hnc
+    apply post_bind_any; intro _
+    apply post_bind_require; intro hne
+    have hne : 0 < ne := by simpa using hne
+    refine post_bind (readCodedValuesEb_length _ ne nc hne hnc) (fun raw hlen => ?_)
+    have hsz : (if scheme.isOcta = true then (List.map (toSigned 32) raw).toArray
+        else (List.map ofSymbol raw).toArray).size = ne * nc := by
       split <;> simp [hlen]
-    refine post_bind (applyScheme_size scheme nc ne md pos posF _ hnc hsz) (fun out hout => ?_)
+    refine post_bind (applySchemeEb_size ver scheme nc ne md pos posF _ hnc hsz) (fun out hout => ?_)
     apply post_pure
     exact ⟨by rw [hout, hsz], hne, hnc⟩
   apply post_ite <;> intro _
@@ -395,22 +387,31 @@ theorem decodeOneDecoder_post (opts : DecOpts) (ver : Nat) (mesh : Mesh) (posAtt
       (fun l => (∀ s ∈ l, AttOK mesh.numPoints s) ∧ l.length = done.length + mine.length ∧
         (mine ≠ [] → FacesOK mesh)) := by
   unfold decodeOneDecoder
-  extract_lets baseView a view v2dSize
+  extract_lets view
   apply post_bind_any; intro _
   apply post_bind_liftR; intro seq hseq
   apply post_bind_any; intro _
   -- facts about the sequence
   have hvnf : view.numFaces = mesh.numFaces := by
-    simp only [view]; split <;> rfl
-  have hseqok : SInv seq ∧ seq.v2d.size = v2dSize ∧
+    simp only [view, viewOfDecoder]; split <;> rfl
+  have hseqok : SInv seq ∧ seq.v2d.size = (if dec.attDataId < 0 then mesh.vc.size
+        else max (mesh.atts[dec.attDataId.toNat]! : AttConn).lm.size mesh.vc.size) ∧
       (1 ≤ mesh.numFaces → 1 ≤ seq.v2d.size → 1 ≤ seq.d2c.size) := by
+    unfold sequenceOfDecoder at hseq
+    dsimp only at hseq
     split at hseq
     · rename_i hc
+      have hcd : dec.cornerDecoder = false := by
+        simp only [Bool.and_eq_true, Bool.not_eq_true'] at hc
+        exact hc.1
+      have hview : viewOfDecoder mesh dec =
+          { c2v := mesh.c2v, opp := mesh.opp, seam := #[], lm := mesh.vc, isAtt := false, numFaces := mesh.numFaces } := by
+        unfold viewOfDecoder; simp [hcd]
+      rw [hview] at hseq
       obtain ⟨h1, h2, h3⟩ := maxPredictionDegree_ok _ _ _ _ hseq
       refine ⟨h1, h2, fun hnf hv => h3 hnf ?_⟩
       show 1 ≤ mesh.vc.size
       rw [h2] at hv
-      simp only [v2dSize] at hv
       split at hv
       · exact hv
       · rcases Nat.le_total (mesh.atts[dec.attDataId.toNat]! : AttConn).lm.size mesh.vc.size with hle | hle
